@@ -76,6 +76,9 @@ def _family_of_template(t):
 
 def run(P, R, tier):
     F = P.func(MOD, ROOT)
+    from rules import common as _common
+    _common.forward(P, R, 'C12', ['C12.c'], 'C10.e', 'the returned frame (and any re-read) loads the parts in numeric order: part.10 after part.2', floor=1)
+    _common.forward(P, R, 'C11', ['C11.d'], 'C10.e', 'the returned frame is read back through read_parquet_dask', floor=1)
     helpers = {name: (g, _helper_kind(P, g)) for name, g in F.nested.items()}
     rm_helpers = [g for g, k in helpers.values() if 'rm' in k]
     mk_helpers = [g for g, k in helpers.values() if 'mkdir' in k]
